@@ -285,6 +285,24 @@ func c18SkipHostile(c *core.Ctx, idx int) {
 				data[j] = alphabet[r.IntN(len(alphabet))]
 			}
 		}
+		if i%4 == 0 {
+			// declared lengths and counts at the edges of int and uint64 (where int(l) wraps), alone,
+			// as the length of an entry of a counted field, and followed by a few bytes
+			big := bigVarints[r.IntN(len(bigVarints))]
+			if r.IntN(3) == 0 {
+				big = refAppendUvarint(nil, []uint64{1<<63 - 1, 1<<63 - 2, 1<<63 - 10, 1 << 63, 1<<63 + 1, 1<<64 - 1, 1<<64 - 9, 1 << 62, 1<<32 - 1, 1 << 31}[r.IntN(10)])
+			}
+			switch r.IntN(4) {
+			case 0:
+				data = append(append([]byte{}, big...), data...)
+			case 1:
+				data = append(append([]byte{1}, big...), data...)
+			case 2:
+				data = append(append([]byte{2, 1, 'x'}, big...), data...)
+			default:
+				data = append(append([]byte{3, 0, 0}, big...), data...)
+			}
+		}
 		for wt := plenccore.WireType(0); wt <= 7; wt++ {
 			if p := core.Guard(func() {
 				got, err := plenccore.Skip(data, wt)
